@@ -70,6 +70,12 @@ def run_output(prop, tier, seed, want_tabs):
                 T = rng.randrange(1, 7)
                 ops.append({"op": "output", "rows_list": [_arbitrary_rows(c, rng, T) for _ in range(nexp)],
                             "tabs": [dict(t) for t in tabs], "tag": "arbitrary", "T": T})
+            if not want_tabs:
+                # experiments of DIFFERENT lengths in one list (practice + main blocks concatenated), both orders
+                t1, t2 = rng.randrange(1, 4), rng.randrange(4, 7)
+                for lens in ((t1, t2), (t2, t1, t1)):
+                    ops.append({"op": "output", "rows_list": [_arbitrary_rows(c, rng, t) for t in lens], "tabs": [],
+                                "tag": "arbitrary-mixed-lengths", "T": None})
             tasks.append((c, ops))
         # resolve symbolic trial selections once the lengths are known: done in a pre-pass for arbitrary ones
         for c, ops in tasks:
